@@ -294,7 +294,7 @@ fn collect_programs(work: &Path, tier: &str, rng: &mut Rng, kinds_seen: &mut BTr
         let name = format!("bug_{}", p.file_stem().unwrap().to_string_lossy());
         add(name, &std::fs::read_to_string(&p).unwrap(), 2, p.to_string_lossy().to_string());
     }
-    let n_gen = if tier == "thorough" { 150 } else { 30 };
+    let n_gen = if tier == "thorough" { 400 } else { 30 };
     let n_gen = std::env::var("H20_GENERATED").ok().and_then(|s| s.parse().ok()).unwrap_or(n_gen);
     for i in 0..n_gen {
         let (text, kinds) = gen_program(rng, i);
